@@ -796,14 +796,16 @@ func (h *hist) insertMany(t *tinfo, g *gen, op Op) {
 	}
 	tx, err := h.sdb.Begin()
 	if err != nil {
-		if h.faulted() {
+		if h.faultedAny() {
 			return
 		}
 		kernel.Harnessf("begin: %v", err)
 	}
 	args := []reflect.Value{reflect.ValueOf(tx)}
 	args = append(args, rows...)
+	h.extraHeld = 1
 	_, err = h.call(name, f, args...)
+	h.extraHeld = 0
 	h.note("%s(%d rows) in a transaction -> err=%v", name, len(rows), err)
 	if err != nil {
 		tx.Rollback()
@@ -816,7 +818,7 @@ func (h *hist) insertMany(t *tinfo, g *gen, op Op) {
 	if op.Commit {
 		cerr := tx.Commit()
 		h.note("commit -> %v", cerr)
-		if h.faulted() {
+		if h.faultedAny() {
 			return
 		}
 		if cerr != nil {
@@ -828,7 +830,7 @@ func (h *hist) insertMany(t *tinfo, g *gen, op Op) {
 	} else {
 		tx.Rollback()
 		h.note("rollback")
-		if h.faulted() {
+		if h.faultedAny() {
 			return
 		}
 		h.out.Keys = append(h.out.Keys, fmt.Sprintf("@call:insertmany-rollback/%s/%d", t.Name, len(rows)))
